@@ -26,6 +26,7 @@ const Property = "C10"
 //	write:         Write of N values
 //	writeStriped:  WriteStriped of N-long channels
 //	set:           SetSample at position N mod Len
+//	sparse:        three single samples written through a full-capacity window from frame 0: position N mod Cap, the last position, and one up to 700 positions before it (everything in between stays as it is)
 //	reslice:       b = b.Slice(0, N mod (K+1)) becomes the current header; the earlier headers stay usable
 //
 // V selects which header of the buffer (the one returned by Get, or one of its
@@ -298,6 +299,15 @@ func Check(c *Case) (res kit.Result) {
 			pos := n % hd.Len
 			h.buf.Set(pos, sampleFor(isFloat, n, 111+n%10))
 			h.model[pos] = h.alias.Get(pos)
+		case "sparse":
+			if C*K == 0 {
+				continue
+			}
+			for _, pos := range []int{n % (C * K), C*K - 1, C*K - 1 - n%kit.Min(C*K, 700)} {
+				h.alias.Set(pos, kit.IV(int64(1+pos%90)))
+				h.model[pos] = h.alias.Get(pos)
+			}
+			res.Class("sparseWritesThroughAFullWindow")
 		case "reslice":
 			k := n % (K + 1)
 			if k < h.buf.Hdr().Length {
@@ -337,7 +347,7 @@ func FP(c *Case) uint64 {
 	return h.Sum()
 }
 
-var kinds = []string{"get", "get", "put", "put", "gc", "appendSamples", "appendSmall", "appendBig", "write", "writeStriped", "set", "reslice", "reslice"}
+var kinds = []string{"get", "get", "put", "put", "gc", "appendSamples", "appendSmall", "appendBig", "write", "writeStriped", "set", "sparse", "reslice", "reslice"}
 
 func Gen(t *rapid.T) *Case {
 	c := &Case{T: rapid.SampledFrom(Types).Draw(t, "type"), C: rapid.IntRange(1, 4).Draw(t, "c")}
@@ -359,6 +369,17 @@ func Gen(t *rapid.T) *Case {
 		}
 		c.Ops = append([]Op{{Kind: "get"}}, c.Ops...)
 		c.Ops = append(c.Ops, Op{Kind: "put"}, Op{Kind: "get"})
+		return c
+	}
+	if kit.Chance(t, "mid", 1, 10) {
+		// pooled buffers of hundreds to thousands of samples, short histories of quiet checkouts and sparse writes
+		c.K = rapid.IntRange(258, 6000).Draw(t, "midSamples")/c.C + 1
+		c.L = rapid.SampledFrom([]int{0, 0, c.K, 1, c.K / 2}).Draw(t, "midL")
+		c.Ops = []Op{{Kind: "get", N: 1}}
+		for _, k := range rapid.SliceOfN(rapid.SampledFrom([]string{"sparse", "sparse", "set", "appendSamples", "reslice", "get", "put"}), 1, 7).Draw(t, "midOps") {
+			c.Ops = append(c.Ops, Op{Kind: k, I: rapid.IntRange(0, 2).Draw(t, "mi"), N: rapid.IntRange(0, 7000).Draw(t, "mn"), V: rapid.IntRange(0, 2).Draw(t, "mv")})
+		}
+		c.Ops = append(c.Ops, Op{Kind: "put", V: rapid.IntRange(0, 2).Draw(t, "mpv")}, Op{Kind: "get", N: 1}, Op{Kind: "get", N: 1})
 		return c
 	}
 	if rapid.IntRange(0, 4).Draw(t, "burstSel") == 0 {
